@@ -31,6 +31,8 @@ def run(ctx):
     ctx.rule("R2", "accept_edit: start/old_end points before the splice, new_end point after; byte offsets = position, +deleted_length, +inserted len")
     ctx.rule("R3", "single writer: get_source_mut / Root.inner / Root.doc(mut) only in Root::do_edit; StrDoc.src never written after construction")
     ctx.rule("R5", "the edit description given by the caller reaches do_edit unmodified (no field of an Edit is rewritten on the way)")
+    ctx.rule("R6", "an edit leaves nothing behind that describes the old tree: every field of Root is rewritten by do_edit")
+    r6(ctx)
     ctx.rule("R4", "re-parse receives Some(&self.inner) (the edited tree) and its result is stored back into self.inner")
 
     do_edit = ctx.anchor("R1", r"^ast_grep_core::node::Root::<D>::do_edit$")
@@ -382,3 +384,36 @@ def r5(ctx):
                "no field of an Edit is assigned here" if not stores else
                "fields of the Edit are rewritten before it reaches do_edit (%s): the change applied to the text is not the one the caller described — "
                "the document no longer equals the caller's splice" % stores, where=f.loc())
+
+
+def r6(ctx):
+    """After do_edit the document must behave like a fresh parse of the new text in later searches, too.  Root holds the tree and the
+    document; anything else stored next to them (a cached kind set, a node index, a memoised answer) was computed from the old tree and
+    is stale unless do_edit rewrites it.  Rule: every field of `Root` is written (assigned or borrowed mutably) in do_edit."""
+    import json
+    prog = ctx.prog
+    adt = prog.adts.get("ast_grep_core::node::Root")
+    de0 = ctx.anchor("R6", r"^ast_grep_core::node::Root::<D>::do_edit$")
+    if not adt or not de0:
+        ctx.ob("R6", "Root adt", bool(adt), "struct Root not found in the facts")
+        return
+    fields = [fl["name"] for v in adt["variants"] for fl in v["fields"]]
+    ctx.floor("R6", "fields of Root", len(fields), 2)
+    de = prog.inlined(de0)
+    written = set()
+    for g in prog.family(de):
+        for bi in sorted(g.live_blocks):
+            for st in g.blocks[bi]["s"]:
+                if st[0] != "A":
+                    continue
+                for fl in fields:
+                    tag = ".%s|ast_grep_core::node::Root" % fl
+                    if any(str(p_) == tag for p_ in st[1][1]):
+                        written.add(fl)
+                    if st[2][0] == "ref" and st[2][1] == "mut" and any(str(p_) == tag for p_ in st[2][2][1]):
+                        written.add(fl)
+    for fl in fields:
+        ctx.ob("R6", "Root.%s is rewritten by do_edit" % fl, fl in written,
+               "assigned or mutably borrowed in do_edit" if fl in written else
+               "Root.%s is not touched by do_edit: whatever it caches was computed from the tree before the edit — a later search on the edited document answers from the old tree "
+               "(e.g. a kind-set prefilter that has never seen the kinds the edit introduced)" % fl, where=de0.loc())
